@@ -59,6 +59,11 @@ Theorem C04_delete_callers_pass_tip :
   found_delete_calls = expected_delete_calls /\ forallb delete_arg_is_tip found_delete_calls = true.
 Proof. vm_compute. split; reflexivity. Qed.
 
+(* no function is handed the database handle where it writes through a parameter (interface-typed writers included) *)
+Theorem C04_no_database_as_writer_argument :
+  found_writer_args = expected_writer_args /\ existsb writer_arg_is_database found_writer_args = false.
+Proof. vm_compute. split; reflexivity. Qed.
+
 (* non-vacuity: a history with a fork, a refused deletion at the finalized height and a restart *)
 Example C04_example :
   let ops := [Apply 11 true 0 false; Apply 12 true 1 false; Apply 13 false 9 false; Delete 2 true true; Apply 22 true 1 false;
